@@ -358,6 +358,10 @@ theorem tprocRunEv_safe [DecidableEq H] (b : Bounds) (f : HashFns H) (rs : RS) (
     simp only [tprocRunEv]
     exact tprocRunEv_safe b f rs sg id nodes s hs hl rest (tprocExpire tp key)
       (tprocExpire_inv tp key ht) (tprocExpire_procInv s tp key hp)
+  | .forget key :: rest, tp, ht, hp => by
+    simp only [tprocRunEv]
+    exact tprocRunEv_safe b f rs sg id nodes s hs hl rest (tprocForget tp key) ht
+      (fun key' st h => hp key' st h)
 
 /-! ### rejected units, then the honest message -/
 
@@ -706,5 +710,8 @@ theorem tprocRunEv_routable [DecidableEq H] (b : Bounds) (cfg : Cfg) (pc : PCfg)
       by_cases hk : key' = key
       · rw [if_pos hk] at h'; cases h'
       · rw [if_neg hk] at h'; exact h key' st h'
+  | .forget key :: rest, tp, h => by
+    simp only [tprocRunEv]
+    exact tprocRunEv_routable b cfg pc f rs sg s rest (tprocForget tp key) (fun key' st hf => h key' st hf)
 
 end Juno.C19
